@@ -3,7 +3,8 @@
 Per case: builds the MDP through the public constructor, trains RMAX with a recording
 RMAXEventListener (the (s, a, r, ns) of every time step, episode by episode), and returns
 the experience (as indices into state_list/action_list), the Q dictionary, the policy, and the
-learner's tallies (rewards, s_a_counts, transitions, q_matrix) read from the learner object."""
+learner's tallies (rewards, s_a_counts, transitions, q_matrix) read from the learner object.
+A case with a "then" part trains the SAME RMAX object on a second MDP afterwards ("second")."""
 import os, sys
 sys.path.insert(0, os.path.dirname(os.path.abspath(__file__)))
 from build import *
@@ -39,27 +40,53 @@ def build_labelled_mdp(case):
     ), labels
 
 
-def one(case, pl):
+def collect(learner, view):
+    """one train_on call of the given learner object on the MDP of `view`, with everything the
+    certificate needs, mapped back by label"""
     import numpy as np
-    from msdm.algorithms.rmax import RMAX, RMAXEventListener
-    mdp, labels = build_labelled_mdp(case)
+    mdp, labels = build_labelled_mdp(view)
     sl, al = list(mdp.state_list), list(mdp.action_list)      # al: LABELS in msdm's order
     sidx = {s: i for i, s in enumerate(sl)}
     aidx = {a: i for i, a in enumerate(al)}                   # label -> position in action_list
     label_id = {lab: i for i, lab in enumerate(labels)}       # label -> generator action id
+    res = learner.train_on(mdp)
+    episodes = [{"steps": [[sidx[s], aidx[a], fj(r), sidx[ns], int(ai)] for (s, a, r, ns, ai) in ep["steps"]],
+                 "end": sidx[ep["end"]]} for ep in res.event_listener_results]
+    q = res.q_values
+    qstates = list(q.keys())
+    return {
+        # action_list is reported as generator action ids in msdm's action_list order
+        "state_list": sl, "action_list": [label_id[a] for a in al], "action_labels_in_order": [str(a) for a in al],
+        "q_states": qstates,
+        "q_actions": [sorted(label_id[a] for a in q[s].keys()) for s in qstates],
+        "Q": [[fj(q[s][a]) if (s in q and a in q[s]) else None for a in al] for s in sl],
+        "pi": [[fj(res.policy.action_dist(s).prob(a)) for a in al] for s in sl],
+        "episodes": episodes,
+        "rewards": [[fj(x) for x in row] for row in learner.rewards.tolist()],
+        "counts": [[fj(x) for x in row] for row in learner.s_a_counts.tolist()],
+        "transitions": [[[fj(x) for x in r2] for r2 in row] for row in learner.transitions.tolist()],
+        "q_matrix": [[fj(x) for x in row] for row in learner.q_matrix.tolist()],
+        "n_states": int(learner.n_states), "n_actions": int(learner.n_actions),
+        "max_reward_matrix": fj(float(np.max(mdp.reward_matrix))),
+    }
+
+
+def one(case, pl):
+    import traceback
+    from msdm.algorithms.rmax import RMAX, RMAXEventListener
 
     class Recorder(RMAXEventListener):
+        """records the raw (s, a, r, ns, ai) of every time step, episode by episode"""
         def __init__(self):
             self.episodes = []
             self.cur = []
-            self.starts = []
 
         def end_of_timestep(self, lv):
-            self.cur.append([sidx[lv["s"]], aidx[lv["a"]], fj(lv["r"]), sidx[lv["ns"]], int(lv["ai"])])
+            self.cur.append((lv["s"], lv["a"], lv["r"], lv["ns"], lv["ai"]))
 
         def end_of_episode(self, lv):
             # lv["s"] is the state the episode ended in
-            self.episodes.append({"steps": self.cur, "end": sidx[lv["s"]]})
+            self.episodes.append({"steps": self.cur, "end": lv["s"]})
             self.cur = []
 
         def results(self):
@@ -69,24 +96,19 @@ def one(case, pl):
                    num_transition_samples=int(case["m"]),
                    bellman_convergence_diff=fl(case["tol"]),
                    seed=int(case["seed"]), event_listener_class=Recorder)
-    res = learner.train_on(mdp)
-    q = res.q_values
-    qstates = list(q.keys())
-    out = {
-        # action_list is reported as generator action ids in msdm's action_list order
-        "state_list": sl, "action_list": [label_id[a] for a in al], "action_labels_in_order": [str(a) for a in al],
-        "q_states": qstates,
-        "q_actions": [sorted(label_id[a] for a in q[s].keys()) for s in qstates],
-        "Q": [[fj(q[s][a]) if (s in q and a in q[s]) else None for a in al] for s in sl],
-        "pi": [[fj(res.policy.action_dist(s).prob(a)) for a in al] for s in sl],
-        "episodes": res.event_listener_results,
-        "rewards": [[fj(x) for x in row] for row in learner.rewards.tolist()],
-        "counts": [[fj(x) for x in row] for row in learner.s_a_counts.tolist()],
-        "transitions": [[[fj(x) for x in r2] for r2 in row] for row in learner.transitions.tolist()],
-        "q_matrix": [[fj(x) for x in row] for row in learner.q_matrix.tolist()],
-        "n_states": int(learner.n_states), "n_actions": int(learner.n_actions),
-        "max_reward_matrix": fj(float(np.max(mdp.reward_matrix))),
-    }
+    out = collect(learner, case)
+    if "then" in case:
+        # object reuse: the SAME RMAX object, second problem (own discount rate, rewards, rmax)
+        view = {k: v for k, v in case.items() if k != "then"}
+        view.update(case["then"])
+        learner.rmax = fl(view["rmax"])
+        try:
+            out["second"] = collect(learner, view)
+        except BaseException as e:
+            if isinstance(e, (KeyboardInterrupt, SystemExit)):
+                raise
+            out["second"] = {"error": type(e).__name__ + ": " + str(e)[:500],
+                             "trace": traceback.format_exc()[-1500:]}
     return out
 
 
